@@ -985,3 +985,74 @@ def nsparse(repo):
             res.samples.append(f"{f.name}: reserved-word test over {splitter}(...), as emitted by {emit_fn[0].name}")
     res.analysed = [HG]
     return res
+
+
+# ---------------------------------------------------------------------------------------------------------
+# R-SLOTAGREE: one placeholder name, one meaning per generator function
+SLOT_EXCEPTIONS = {
+    ("_generate_enum_definition", "name"): "C++ enumerator spelling vs. Emboss name, by design (R-TEXTNAME decides which template gets which)",
+    ("_generate_enum_definition", "value"): "numeric value in enum_value, enumerator name in the case templates",
+    ("_generate_structure_definition", "field"): "field accessor vs. parameter accessor",
+    ("_generate_structure_definition", "name"): "subtype name, parameter name, structure name: three different templates",
+    ("_get_includes", "file_name"): "three different includes",
+}
+
+
+def _expand_locals(node, fnode, depth=0):
+    """Source text of `node` with locals that are assigned exactly once (from a call-free expression) replaced by their
+    definition, so that `name=field_name` and `name=field_ir.name.name.text` compare equal."""
+    if depth > 3:
+        return ast.unparse(node)
+
+    class R(ast.NodeTransformer):
+        def visit_Name(self, n):
+            defs = [x for x in walk_no_nested_funcs(fnode) if isinstance(x, ast.Assign)
+                    and any(isinstance(t, ast.Name) and t.id == n.id for t in x.targets)]
+            if len(defs) == 1 and not any(isinstance(c, ast.Call) for c in ast.walk(defs[0].value)) \
+                    and not any(isinstance(c, ast.Name) and c.id == n.id for c in ast.walk(defs[0].value)):
+                return ast.parse(_expand_locals(defs[0].value, fnode, depth + 1), mode="eval").body
+            return n
+    import copy
+    return ast.unparse(R().visit(copy.deepcopy(node)))
+
+
+def slotagree(repo):
+    """Within one generator function a placeholder name filled in several templates is filled with the same
+    expression (locals expanded); the five (function, slot) pairs where the meaning differs by design are tabled.
+    A template that gets another variable under the same slot name (`parent_type=`, `name=`, `buffer_type=` ...)
+    produces a header that names the wrong entity."""
+    res = RuleResult("R-SLOTAGREE")
+    m = repo.mod(HG)
+    groups = {}
+    for n in ast.walk(m.tree):
+        if isinstance(n, ast.Call) and (call_name(n) or "").endswith("format_template") and n.args:
+            f = m.enclosing_func(n)
+            if f is None:
+                continue
+            cands = _template_candidates(m, f, n.args[0]) or {"?"}
+            for k in n.keywords:
+                groups.setdefault((f.qualname, k.arg), []).append((sorted(cands)[0], _expand_locals(k.value, f.node), n.lineno, f))
+    for (fn, slot), sites in sorted(groups.items()):
+        if len({t for t, _, _, _ in sites}) < 2:
+            continue
+        res.instances += 1
+        forms = {}
+        for t, src, line, f in sites:
+            forms.setdefault(src, []).append((t, line))
+        if len(forms) == 1:
+            if len(res.samples) < 3:
+                res.samples.append(f"{fn}: ${{{slot}}} = {next(iter(forms))} in {len(sites)} templates")
+            continue
+        if (fn, slot) in SLOT_EXCEPTIONS:
+            res.notes.append(f"{fn} ${{{slot}}}: {SLOT_EXCEPTIONS[(fn, slot)]}")
+            continue
+        major = max(forms.items(), key=lambda kv: len(kv[1]))[0]
+        for src, ts in sorted(forms.items()):
+            if src == major:
+                continue
+            for t, line in ts:
+                res.add(f"{HG}|{fn}|{slot}|{t}", f"{fn} fills ${{{slot}}} of template {t} with `{src}`, while the other templates of "
+                        f"the same function get `{major}`: the generated code names a different entity there", HG, line, fn)
+    res.detail = {"tabled": sorted(f"{a}|{b}" for a, b in SLOT_EXCEPTIONS)}
+    res.analysed = [HG]
+    return res
